@@ -60,11 +60,24 @@ static Case gen_C15(const GenCtx &ctx) {
   sub.scale = std::min(ctx.scale, 220);
   int steps = g::rng(2, ctx.tier ? 12 : 6);
   c.set("steps", steps);
+  // a third of the cases run in lockstep: every thread executes the SAME program (same shapes, data and parameters, on
+  // operands of its own), so all threads are inside the same routine on the same path at about the same time - the situation
+  // in which function-level scratch state of a rarely used path is touched by two threads at once
+  bool lockstep = g::coin(1, 3);
+  if (lockstep) c.set("lockstep", 1);
   for (int t = 0; t < T; t++)
     for (int s = 0; s < steps; s++) {
+      if (lockstep && t > 0) {
+        c.add_sub("t" + std::to_string(t) + "s" + std::to_string(s) + "/", c.sub("t0s" + std::to_string(s) + "/"));
+        continue;
+      }
       const Op *o = g::wpick(w);
       Case sc;
-      o->gen(sub, sc, 0);
+      // one step in eight at the scale of the semantic checks: the block-recursive factorisations and the Strassen splits
+      // (and whatever scratch state they keep) are only entered by operands of that size
+      GenCtx big = ctx;
+      big.scale = std::max(std::min(ctx.scale, 700), 600);
+      o->gen(g::coin(1, 8) ? big : sub, sc, 0);
       c.add_sub("t" + std::to_string(t) + "s" + std::to_string(s) + "/", sc);
     }
   return c;
@@ -120,6 +133,7 @@ static Verdict exec_C15(const Case &c) {
     }
   v.subcases = (long)T * steps;
   v.label("threads:" + std::to_string(T));
+  if (c.i("lockstep", 0)) v.label("lockstep-programs");
   v.label(maxactive.load() >= 2 ? "overlap-observed" : "no-overlap-observed");
   v.label(vf_cfg_enable_mmc() || vf_cfg_enable_mzd_cache() ? "caches-enabled-build" : "thread-safe-build");
   v.nontrivial = maxactive.load() >= 2;
@@ -129,7 +143,7 @@ RegisterProp p_C15({"C15",
                     "random: T in {2,3,4,8,16} threads, each with a generated program of 2..12 catalogue calls (multiplication, "
                     "elimination, factorisation, TRSM, inversion, solve, kernel, data movement incl. creation and freeing, row/column "
                     "operations, permutations, observers) on operands "
-                    "created by that thread, all released together; oracle: in the ThreadSanitizer build of the thread-safe "
+                    "created by that thread (a third of the cases in lockstep: all threads run the same program), all released together; oracle: in the ThreadSanitizer build of the thread-safe "
                     "configuration zero race reports (a report ends the process and is the verdict), and in every build each step's "
                     "output digest equals the digest of the same program run sequentially, which is itself checked against the model. "
                     "non-trivial iff >= 2 threads were observed inside library calls at the same time; distinct by recipe hash",
@@ -174,6 +188,7 @@ static Case gen_C16(const GenCtx &ctx) {
     else c.set("cutoff", g::pick<int>({0, 64, 128, 192, 256, 512}));
     g::pat(c, "A", m, l);
     g::pat(c, "B", l, n);
+    if (g::coin(1, 8)) c.set("share", 1);  // both factors overlapping views of one region (same first word)
     bool acc = r.find("addmul") != std::string::npos;
     if (acc || g::coin(1, 2)) {
       c.sets("C.dst", "given");
